@@ -40,6 +40,9 @@ type execOpts struct {
 
 var hooksInstalled bool
 
+// carryPool: idle printers left by the previous run of this process.
+var carryPool []*prec
+
 func installHooks() {
 	if !hooksInstalled {
 		hooks.SetPoolHooks(poolGetHook, poolPutHook)
@@ -109,6 +112,17 @@ func execute(plan *Plan, opts execOpts) *RunResult {
 	if plan.Cfg.Sink {
 		sinkCh = make(chan handoff, 1<<14)
 	}
+	if plan.Cfg.CarryPool {
+		for _, r := range carryPool {
+			r.lastPutBy = -1
+			s.idle = append(s.idle, r)
+			s.byPtr[r.p] = r
+			if r.id >= s.nextID {
+				s.nextID = r.id + 1
+			}
+		}
+	}
+	carryPool = nil
 	nt := len(plan.Tasks)
 	total := nt
 	if plan.Cfg.Sink {
@@ -154,6 +168,12 @@ func execute(plan *Plan, opts execOpts) *RunResult {
 		t.pipe.close()
 	}
 
+	// what stays idle in the pool is what the next run of this process may start with
+	for _, r := range s.idle {
+		if r.state == 1 && len(carryPool) < 16 {
+			carryPool = append(carryPool, r)
+		}
+	}
 	res.Viol = append(res.Viol, s.viol...)
 	var sb strings.Builder
 	for _, t := range s.tasks {
